@@ -359,9 +359,11 @@ def synth_stored(p):
 
 
 def pass_req(p, live):
-    _, fix = owner_state(p, live)
+    import koreo_util as ku
+
     return {"op": "pass",
-            "cfg": {"policy": policy_of(p), "ownerFix": fix, "createEnabled": bool(p.get("createEnabled", True)),
+            "cfg": {"policy": policy_of(p), "shouldOwn": bool(p["owned"]), "ownerRef": to_wire(ku.OWNER_REF),
+                    "createEnabled": bool(p.get("createEnabled", True)),
                     "createDelay": to_wire(p["createDelay"]),
                     "createView": to_wire(create_view(p))},
             "t": to_wire(target_of(p)),
@@ -683,6 +685,29 @@ def unit_phase(ck, drv, n, weights, oracle, label):
                        oracle(small, impl_vm(small["t"], small["live"], small["la"])) or bad)
 
 
+QUIRK_PROBES = [
+    ("null-below-last-applied",
+     {g.LAST_APPLIED: ["d"], "d": {"e": None, "f": 1}}, {}, {"d": {"f": 1}}),
+    ("member-named-ownerReferences",
+     {g.AS_MAP: {"m": ["name"]}, "m": [{"name": "ownerReferences", "v": 1}, {"name": "b"}]},
+     {"m": [{"name": "ownerReferences", "v": 2}, {"name": "b"}]}, None),
+    ("member-named-as-directive",
+     {g.AS_MAP: {"m": ["name"]}, "m": [{"name": g.AS_MAP, "v": 1}, {"name": "b"}]},
+     {"m": [{"name": g.AS_MAP, "v": 1}, {"name": "b"}]}, None),
+]
+
+
+def quirk_probes(ck, drv):
+    """the corners outside the stated domain (notes, Props/C05.lean): record what code and model answer"""
+    try:
+        ans = drv.ask([vm_req(t, a, la) for _, t, a, la in QUIRK_PROBES])
+    except Exception:
+        return
+    for (name, t, a, la), m in zip(QUIRK_PROBES, ans):
+        mv = "ok" if m.get("r") == "ok" else "+".join(k for k, f in (("differ", m.get("d")), ("raise", m.get("x"))) if f)
+        ck.count(f"quirk:{name}:impl={impl_vm(t, a, la)}:model={mv}")
+
+
 def oracle_c04_unit(case, iv):
     """live Meets target ⇒ the comparator reports a match (stated domain: DirectivesWF)"""
     t, live, la = case["t"], case["live"], case["la"]
@@ -705,6 +730,7 @@ def oracle_c05_unit(case, iv):
 
 def update_phase(ck, drv):
     """`_prepare_update` against `prepareUpdate` on every shape of spec.update"""
+    quirk_probes(ck, drv)
     from koreo.resource_function import structure
     from koreo.resource_function.prepare import _prepare_update
     from koreo.result import PermFail
@@ -752,10 +778,7 @@ def run_scenario(ck, drv, p, stored, steps, relation="pass-observables"):
         return None
     reqs, usable = [], []
     for o in obs:
-        if owner_state(p, o["before"])[1] == "skip":
-            usable.append(False)
-            continue
-        usable.append(True)
+        usable.append(True)          # the owner-reference branch is the model's own prediction now
         reqs.append(pass_req(p, o["before"]))
     try:
         ans = iter(drv.ask(reqs))
